@@ -264,14 +264,14 @@ func TestC10Syscalls(t *testing.T) {
 	tl := newC10Tools(t)
 	if tl.strace == "" {
 		rec.Label("env:strace-unavailable-skipped")
-		t.Skip("strace not available")
+		t.Skip("VERIF-ENV-SKIP strace not available")
 	}
 	// probe: can strace attach and inject here?
 	probeSpec := filepath.Join(tl.work, "probe.json")
 	_ = os.WriteFile(probeSpec, []byte(`{"cdiVersion":"0.3.0","kind":"v1.com/gpu","devices":[{"name":"d0","containerEdits":{"env":["A=b"]}}]}`), 0o644)
 	if _, err := tl.run(filepath.Join(tl.work, "probe.log"), "", "write", filepath.Join(tl.work, "probe-dir"), "p.json", probeSpec); err != nil {
 		rec.Label("env:strace-unavailable-skipped")
-		t.Skipf("strace cannot trace here: %v", err)
+		t.Skipf("VERIF-ENV-SKIP strace cannot trace here: %v", err)
 	}
 	rapid.Check(t, func(t *rapid.T) {
 		newSpec, oldSpec := c10Specs(t)
